@@ -3,4 +3,4 @@ From Common Require Import Words.
 From Coq Require Import ZArith.
 From Hash Require Import HashBase HashSpec HashModel.
 Extraction Language OCaml.
-Extraction "model.ml" anchor step spec_step init new_table m_obs s_obs hash_int hash_str bytes_eqb Z.eqb bidx.
+Extraction "model.ml" anchor step spec_step init new_table m_obs s_obs hash_int hash_ptr hash_str bytes_eqb Z.eqb bidx.
